@@ -21,7 +21,13 @@ PatchOk(r) ==
                 Agree(x) == IF x.ok THEN r.ret = 0 /\ r.result = x.doc ELSE r.ret # 0 /\ (x.idx >= 0 => r.idx = x.idx)
             \* (a run that is not the RFC's but is exactly the kind-strict one is tagged: known finding D13h)
             IN Agree(a) \/ (Agree(PK!Apply(r.doc, r.patch)) /\ PrintT(<<"TESTNUM", l>>) /\ FALSE)
-StepOfImpl(s, r) == [ok |-> PatchOk(r), st |-> s]
+\* "fpatch": the same application while one allocation request of json_patch_apply was made to fail: patch and source
+\* document untouched, nothing left allocated once *base is released; a normal return carries the RFC result (D13h aside)
+FPatchOk(r) ==
+    /\ r.patch_after = r.patch /\ r.doc_after = r.doc /\ r.leak = 0
+    /\ (r.ret = 0 /\ Judged(r)) => LET a == PA!Apply(r.doc, r.patch)  b == PK!Apply(r.doc, r.patch) IN
+                                    (a.ok /\ r.result = a.doc) \/ (b.ok /\ r.result = b.doc)
+StepOfImpl(s, r) == [ok |-> IF r.e = "fpatch" THEN FPatchOk(r) ELSE PatchOk(r), st |-> s]
 TraceLog == ndJsonDeserialize(IOEnv.TRACE)
 T == INSTANCE TraceBase WITH Log <- TraceLog, InitSt <- 0, StepOf <- StepOfImpl, ResyncAtNew <- FALSE
 Spec == T!Spec
